@@ -86,6 +86,17 @@ Proof.
     rewrite Efl. split; assumption.
 Qed.
 
+Lemma min1_rangeR : forall p : F64.t, leR F64.zero p ->
+  leR F64.zero (F64.min p f64_one) /\ leR (F64.min p f64_one) f64_one.
+Proof.
+  intros p (F0 & Fp & Hp). destruct f64_one_R as [F1 E1]. change (B2R F64.zero) with 0 in *.
+  assert (is_nan f64_one = false) as Hn1 by (apply finite_not_nan; exact F1).
+  unfold F64.min, fmin. unfold IEEE.is_nan. rewrite (finite_not_nan p Fp), Hn1.
+  unfold flt, fcmp. rewrite (Bcompare_correct _ _ f64_one p F1 Fp).
+  destruct (Rcompare_spec (B2R f64_one) (B2R p)) as [H|H|H]; split; repeat split; auto;
+    change (B2R F64.zero) with 0; lra.
+Qed.
+
 Lemma noninc_impl : forall (le1 le2 : F64.t -> F64.t -> Prop) l,
   (forall a b, le1 a b -> le2 a b) -> noninc le1 l -> noninc le2 l.
 Proof.
@@ -95,24 +106,18 @@ Qed.
 
 Theorem sf_monotone_range_F64 : forall pdf sf mn mx,
   Forall (fun x => F64.is_finite x = true /\ F64.le F64.zero x = true) pdf ->
-  F64.le (last pdf F64.zero) f64_one = true ->
   survival F64Ops pdf = Ok (sf, mn, mx) ->
   length sf = length pdf /\ noninc f64_leP sf /\ Forall (in01 F64Ops f64_leP) sf /\
   Forall (fun x => F64.is_finite x = true) sf.
 Proof.
-  intros pdf sf mn mx Hpdf Hlast Hs.
-  destruct f64_one_R as [F1 E1].
+  intros pdf sf mn mx Hpdf Hs.
   assert (Forall (leR (n_zero F64Ops)) pdf) as Hpos.
   { eapply Forall_impl; [|exact Hpdf]. intros x [Hf Hx]. apply cmp_leR; auto. }
-  assert (leR (last pdf (n_zero F64Ops)) (n_one F64Ops)) as Hl.
-  { apply cmp_leR; auto. destruct pdf as [|x0 r]; [reflexivity|].
-    assert (In (last (x0 :: r) F64.zero) (x0 :: r)) as Hin.
-    { clear. generalize x0. induction r as [|y r IH]; intros x; [left; reflexivity|]. right. apply (IH y). }
-    rewrite Forall_forall in Hpdf. apply (Hpdf _ Hin). }
   destruct (survival_monotone_range F64Ops leR leR_trans
               (fun a b H0 H1 H2 => proj2 (plus_min1 a b H0 H1 H2))
+              min1_rangeR
               (fun a b H0 H1 H2 => proj1 (plus_min1 a b H0 H1 H2))
-              pdf sf mn mx Hpos Hl Hs) as (Hlen & Hn & Hf).
+              pdf sf mn mx Hpos Hs) as (Hlen & Hn & Hf).
   split; [exact Hlen|]. split; [|split].
   - eapply noninc_impl; [|exact Hn]. intros a b H. apply leR_cmp, H.
   - eapply Forall_impl; [|exact Hf]. intros x [H0 H1]. split; apply leR_cmp; assumption.
